@@ -121,6 +121,18 @@ func VerifC04FullObject() {
 		verifCover("crc32-fold")
 		acc := in[0].crc32
 		for i := 1; i < n; i++ {
+			if in[i].size == 0 {
+				// independent of the combine operator: appending an empty part
+				// (whose CRC is the CRC of no bytes, 0) leaves the CRC unchanged
+				zero := true
+				for _, c := range in[i].crc32 {
+					zero = verifAnd(zero, c == 0)
+				}
+				if zero {
+					verifCover("empty-part")
+					continue
+				}
+			}
 			acc = CombineCrc32(acc, in[i].crc32, in[i].size)
 		}
 		verifAssert(verifBytesEqStr(res.ChecksumCRC32, acc), "CRC32 is not the fold of the combine operator over the parts in order")
